@@ -173,3 +173,34 @@ package policy
 //@     invariant u5: trustedPrincipalIDs != usedPrincipalIDs
 //@     invariant u6: trustedPrincipalIDs.contents != usedPrincipalIDs.contents
 //@     invariant trustedKept: forall k string :: setHas(trustedPrincipalIDs, k) <==> trustedID(verifier, k)
+
+//@ # ---- C11 (and C05/C08 frame): one change against the policy in force, including global rules ----
+//@ func (*State).FindVerifiersForPath -> (vs, err)
+//@   trusted
+//@   assigns s.verifiersCache, fresh(SignatureVerifier.*), fresh(elems *SignatureVerifier), fresh(elems tuf.Principal), fresh(map map[string][]*SignatureVerifier)
+//@   ensures err == nil ==> okVerifiers(vs) && (forall i :: 0 <= i && i < len(vs) ==> vs[i].repository == s.repository)
+
+//@ # a threshold global rule that matches the namespace is met by the number of authenticated principals
+//@ # (one less only when checking mergeability and the recorder's own signature is still to come)
+//@ define ruleOK(r tuf.GlobalRule, target string, verified int, relax bool) bool = typeIs(r, tuf.GlobalRuleThreshold) && grMatches(r, target) ==> verified >= grThreshold(r) - ite(relax, 1, 0)
+//@ define rulesOK(rs []tuf.GlobalRule, n int, target string, verified int, relax bool) bool = forall j :: 0 <= j && j < n ==> ruleOK(rs[j], target, verified, relax)
+
+//@ func [C11,C05,C08] verifyGitObjectAndAttestations -> (name, rslNeeded, err)
+//@   requires policy != nil && policy.repository != nil
+//@   requires noNilRules: forall(c, string, forall(j, has(policy.globalRules, c) && 0 <= j && j < len(policy.globalRules[c]) ==> notNil(policy.globalRules[c][j])))
+//@   requires noNilApps: forall(a, string, has(policy.GitHubApps, a) ==> notNil(policy.GitHubApps[a]))
+//@   assigns ghost faults, policy.verifiersCache, fresh(SignatureVerifier.*), fresh(elems *SignatureVerifier), fresh(elems tuf.Principal), fresh(map map[string][]*SignatureVerifier), fresh(set.Set[string].contents), fresh(map map[string]struct{}), fresh(elems gitobject.Option), fresh(elems sslibdsse.Verifier), fresh(elems sigstoreverifieropts.Option), fresh(elems string), fresh(verifyGitObjectAndAttestationsOptions.*), fresh(rsl.ReferenceEntry.*), fresh(rsl.AnnotationEntry.*), fresh(rsl.PropagationEntry.*), fresh(elems Hash), fresh(elems *rsl.AnnotationEntry), fresh(elems rsl.GetLatestReferenceUpdaterEntryOption), fresh(rsl.GetLatestReferenceUpdaterEntryOptions.*)
+//@   ensures [C11] globalThresholdsMet: err == nil && len(verifiers) != 0 && (options.trustedVerifier == "" || name != options.trustedVerifier) ==> forall c string :: has(policy.globalRules, c) ==> rulesOK(policy.globalRules[c], len(policy.globalRules[c]), target, verifiedPrincipalIDs, rslNeeded && options.verifyMergeable)
+//@   loop 1:
+//@     cut
+//@   loop 2:
+//@     cut
+//@   loop 3:
+//@     cut
+//@   loop 4:
+//@     cut
+//@   loop 5:
+//@     invariant visitedOK: forall c string :: visited(c) ==> rulesOK(policy.globalRules[c], len(policy.globalRules[c]), target, verifiedPrincipalIDs, rslSignatureNeededForThreshold && options.verifyMergeable)
+//@   loop 6:
+//@     invariant visitedOK: forall c string :: visited(c) && c != controllerName ==> rulesOK(policy.globalRules[c], len(policy.globalRules[c]), target, verifiedPrincipalIDs, rslSignatureNeededForThreshold && options.verifyMergeable)
+//@     invariant soFar: rulesOK(globalRules, rangeindex + 1, target, verifiedPrincipalIDs, rslSignatureNeededForThreshold && options.verifyMergeable) && globalRules == policy.globalRules[controllerName]
